@@ -48,6 +48,21 @@ CHECKS = {
     "C14": dict(engine="B", technique="exhaustive ordered pairs and triples of attribute lists; every (parent state, from, to) with both lists permitted; differential against recomputation from scratch",
                 text="adjust_precomputed equals precompute(target) for all ordered list pairs (l=3, incl. hidden entries and ids >= r) and all chains F->M->T; adjust_nondelegable equals direct non-delegable qualification component for component for every reachable parent state and every permitted (from,to), and along chains; precomputed encryption decrypts on every state.",
                 note="hidden entries carry id 0 as the Go binding builds them", ref="4/C14"),
+    "C15": dict(engine="B+A", technique="every reachable object x both encodings: exact length accounting with canaries, every off-by-k length, round trip, and every (element position x invalid encoding) corruption",
+                text="Params for l=0..3 with/without signatures, master key, secret keys of every reachable abstract state, ciphertexts, signatures and all LQ-IBE objects are marshalled into exact-size canaried buffers (reported == computed == written), unmarshalled through the Go protocol (checked and unchecked) and re-marshalled byte-identically; length discovery returns -1 for every length off by 1..slot-1; each embedded element position is replaced by each invalid encoding and checked unmarshal must refuse.",
+                note="wire layout taken from the marshal sources; GT members are unvalidated raw bytes", ref="4/C15"),
+    "C16": dict(engine="A+E", technique="bounded-exhaustive product identity hashes x master scalars x lengths, plus every random-stream answer sequence with <= 1 (2) deviations, with a recording hash callback",
+                text="For every enumerated (identity hash, master scalar incl. >= r and via unmarshal, key length incl. 0, random stream) the bytes decrypt feeds the hash equal those of encrypt and equal compress(Q)||compress(rP)||e(sQ,rP) recomputed independently (C pairing API; Python model with chosen discrete logs on a subset); keygen = [s]Q; pointer/length pass-through; negatives differ.",
+                note="hash function is the caller's; pairing decided by C01", ref="4/C16"),
+    "C17": dict(engine="E", level="fault_enumeration", technique="exhaustive enumeration of buffer lengths x first bytes x fills x encodings x modes through the binding's allocation protocol under ASan+UBSan on 3 builds; other checks' call sequences replayed under the same sanitizers",
+                text="Every length 1..Lmax x first byte x fill (zeros, ones, valid truncated/extended, each element corrupted) x encoding x mode for the two length-driven parsers, and the byte alphabet for all fixed-size objects, run with exact-size heap blocks under AddressSanitizer+UBSan on asm/64-bit/32-bit builds; accepted objects are re-marshalled; the quick call sequences of other properties run once under the same monitor.",
+                note="ASan/UBSan are the monitor (assembly routines are opaque to them); Go protocol re-implemented in C++", ref="4/C17"),
+    "C18": dict(engine="A", technique="table-driven: every public operation x all set partitions of {output, non-restrict same-type inputs} x small operand alphabet, differential against the all-distinct call",
+                text="For each of ~230 operations (BigInt, FpBase, Fq, Fr, Fq2/6/12, cyclotomic, curve points, scalar multiplications, final exponentiation, C interface) every aliasing pattern permitted by the signature is executed on operands that trigger the shortcuts and must give the bytes of the all-distinct call, on 3 back ends.",
+                note="__restrict operands exempt; scheme layer outside the property's layers", ref="4/C18"),
+    "C19": dict(engine="A", technique="exhaustive finite table (size/align/offset of every struct member, every exported constant) under 3 word-size configurations + differential call of every exported C function against its C++ operation",
+                text="A generated TU measures sizeof/alignof/offsetof of every member of every C struct and its C++ counterpart and all exported constants under asm, portable-64 and portable-32 builds; the exported C functions are listed from the symbol table and each is compared byte-for-byte with the C++ operation on argument alphabets (same random stream).",
+                note="C++ side decided by C01-C16", ref="4/C19"),
 }
 
 LEVEL = "model_checking"
